@@ -84,6 +84,9 @@ struct Held {
     std::vector<nix::Dimension> dims;
     std::vector<nix::DataView> views;
     std::vector<nix::File> files;
+    // further sessions on the same path in this process, each with entity handles of its own
+    std::vector<nix::File> sessions;
+    std::vector<nix::Block> sessionBlocks;
 };
 Held &held() { static Held h; return h; }
 
@@ -99,6 +102,9 @@ struct Init { Init() { resetHooks().push_back([]() {
     h.copies.clear(); h.dims.clear(); h.views.clear();
     for (auto &f : h.files) { try { f.close(); } catch (...) {} }
     h.files.clear();
+    h.sessionBlocks.clear();
+    for (auto &f : h.sessions) { try { f.close(); } catch (...) {} }
+    h.sessions.clear();
 }); } } init;
 
 nix::FileMode modeOf(const std::string &m) {
@@ -186,6 +192,13 @@ DRV_OP(cr_hold) {
         Held &h = held();
         const std::string &w = a[2];
         if (w == "file") { h.files.push_back(state().file); return std::to_string(h.files.size() - 1); }
+        if (w == "file2") {
+            // the same path opened a second time while the first session is open; the new session's handles stay alive
+            nix::File f2 = nix::File::open(path(), state().file.fileMode() == nix::FileMode::ReadOnly ? nix::FileMode::ReadOnly : nix::FileMode::ReadWrite);
+            for (auto &b : f2.blocks()) { h.sessionBlocks.push_back(b); for (auto &da : b.dataArrays()) { Ent e; e.kind = 'A'; e.a = da; h.copies.push_back(e); } }
+            h.sessions.push_back(f2);
+            return std::to_string(h.sessions.size() - 1);
+        }
         Ent &e = slot(a[1]);
         if (w == "copy") { size_t n = tokNat(a[3]); for (size_t i = 0; i < n; i++) h.copies.push_back(e); return std::to_string(h.copies.size()); }
         if (w == "dim") { h.dims.push_back(e.a.getDimension(tokNat(a[3]))); return std::to_string(h.dims.size() - 1); }
@@ -247,6 +260,12 @@ DRV_OP(cr_held) {
             if (w == "mk") { f.createBlock("through-a-closed-file", "t"); return std::string(); }
             if (w == "close") { f.close(); return std::string(); }
             throw ProtoError("cr_held file " + w);
+        }
+        if (a[1] == "file2") {
+            nix::File &f = h.sessions.at(i);
+            if (w == "close") { f.close(); return std::string(f.isOpen() ? "1" : "0"); }
+            if (w == "isopen") return std::string(f.isOpen() ? "1" : "0");
+            throw ProtoError("cr_held file2 " + w);
         }
         if (a[1] == "copy") {
             Ent &e = h.copies.at(i);
